@@ -527,11 +527,35 @@ func TestReplay(t *testing.T) {
 	if path == "" {
 		t.Skip("no VERIF_REPLAY")
 	}
-	var c Case
-	if _, err := vkit.LoadReplay(path, &c); err != nil {
+	// the replay unit is whichever case kind the violation was reported with
+	var u struct {
+		Case
+		ConcCase
+		WSCase
+		EncCase
+	}
+	if _, err := vkit.LoadReplay(path, &u); err != nil {
 		t.Fatalf("bad replay file: %v", err)
 	}
-	check(t, c)
+	switch {
+	case len(u.Writers) > 0:
+		for i := 0; i < 50; i++ { // schedule-dependent
+			if f := runConc(u.ConcCase); f != nil {
+				vkit.Violation(t, f.key, f.detail, u.ConcCase)
+				return
+			}
+		}
+	case len(u.ToServer)+len(u.ToClient) > 0:
+		if f := runWS(t, u.WSCase); f != nil {
+			vkit.Violation(t, f.key, f.detail, u.WSCase)
+		}
+	case len(u.Pkts) > 0:
+		if f, _ := runEnc(u.EncCase); f != nil {
+			vkit.Violation(t, f.key, f.detail, u.EncCase)
+		}
+	default:
+		check(t, u.Case)
+	}
 }
 
 var _ = os.Getenv
